@@ -348,3 +348,6 @@ func VerifSetupConsts() map[string]int64 {
 		"srvMaxWindow":                1 << 22,
 	}
 }
+
+// VerifPreface returns the connection preface a client opens with.
+func VerifPreface() []byte { return append([]byte(nil), http2Preface...) }
